@@ -5,6 +5,7 @@ CONSTANTS
   ArgVals <- QuickArgs
   StepVals = {1, 2, 3}
   Fuel = 9
+  OneQ = TRUE
   MaxAbs = 8
 INVARIANTS TileCovers
 CONSTRAINT TEmit
